@@ -35,7 +35,7 @@ func genC18(r *R, n int, tier string, out *Out) {
 			ln = 20 + r.Intn(100)
 		}
 		if r.chance(0.03) {
-			ln = pickOf(r, stressSizes) // the sizes at which an implementation may switch strategy (chunking, pooling, unrolling)
+			ln = r.stressSize() // the sizes at which an implementation may switch strategy (chunking, pooling, unrolling)
 		}
 		tag := ""
 		for j := 0; j < ln; j++ {
@@ -100,6 +100,22 @@ func genC18(r *R, n int, tier string, out *Out) {
 			tag = "empty"
 		} else if ln == 1 {
 			tag = tag + "/single"
+		}
+		// on long lists the extreme element often sits in one of the last three positions (a fold that splits the work by size may
+		// never look at the tail)
+		if len(elems) >= 40 && r.chance(0.6) {
+			k := len(elems) - 1 - r.Intn(3)
+			switch r.Intn(4) {
+			case 0:
+				elems[k] = vfloat(-1e300)
+			case 1:
+				elems[k] = vfloat(1e300)
+			case 2:
+				elems[k] = vint(math.MinInt64 + 5)
+			default:
+				elems[k] = vint(math.MaxInt64 - 5)
+			}
+			tag += "/extreme-in-tail"
 		}
 		tree := vlist(elems...)
 		l := tree.toList()
